@@ -5,9 +5,9 @@ SPEC = {
     'claimed': False,
     'theorems': [
         'C03_complete', 'C03_complete_present', 'C03_absent_no_proof',
-        'C03_sound_partial', 'C03_sound_struct_partial', 'C03_sound_injective_partial',
-        'C03_sound_refuted', 'C03_leaf_inner_confusion', 'C03_repaired_sound', 'C03_repaired_complete',
-        'C03_sound_value_partial', 'C03_proof_binds', 'C03_root_unique',
+        'C03_sound', 'C03_sound_struct', 'C03_sound_injective',
+        'C03_honest_heights_ok', 'C03_bad_height_rejected', 'C03_leaf_inner_confusion_rejected',
+        'C03_sound_value', 'C03_proof_binds', 'C03_root_unique',
         'C03_verify_total', 'C03_verify_struct_total', 'C03_root_of_symbolic', 'C03_state_proofs', 'C03_ideal_hash',
     ],
     'allowed_axioms': [],
@@ -16,12 +16,13 @@ SPEC = {
     'rule': 'one case = one committed tree + its probes. The tree is built by the real SetKVPair over 1-10 block heights '
             '(EnableMavlPrefix on for every second case, EnableMavlPrune (PruneHeight 0) for half, LevelDB instead of memdb for 1/7; '
             'keys from a 6-byte alphabet behind shared prefixes incl. the empty key and keys longer than 32 bytes, ~20 % overwrites, '
-            'hash-sized values under long keys; block heights grow monotonically over the run) and read back by the harness from the raw node database (own StoreNode walker). '
+            'hash-sized values under long and (1/10) short keys; block heights grow monotonically over the run) and read back by the harness from the raw node database (own StoreNode walker). '
             'Streams: tiny (empty tree, 1-6 leaves: every key proved, full mutation set at EVERY proof node for one key), '
             'small (2-4 batches x 2-6 writes: every key proved, every mutation kind at one random node), medium (3-8 x 4-12, '
             'every key proved, light mutations on 2 keys), large (5-10 x 20-40, 12 keys proved), malformed (14 byte-level '
-            'probes per case), confuse (known finding 1, both variants, tree sizes 1-15) and nearmiss (the same forgeries on '
-            'trees satisfying the guard). Prove probes: GetKVPairProof + VerifyKVPairProof of the returned bytes, '
+            'probes per case), confuse (the forgeries of the fixed finding C03-leaf-inner-confusion - a node {height 0, size 1} in front '
+            'of the honest path of a leaf whose key or value is the forged pair\'s leaf digest - both variants, tree sizes 1-15, plus the '
+            'same with height 1 and -1; all must be rejected) and nearmiss (the same forgeries on trees without such a leaf). Prove probes: GetKVPairProof + VerifyKVPairProof of the returned bytes, '
             'Tree.ConstructProof + Proof.Verify (value, LeafHash incl. prefix, RootHash) on the loaded tree and, in every third case '
             '(kind *-mem), on the UNSAVED tree after the last batch went through Tree.Set (mixed persisted / new nodes); absent neighbour keys. '
             'Mutations: value (bit flip, +00, truncated, empty, other value), key (bit flip, +00, other key, swapped with value), '
@@ -35,7 +36,7 @@ SPEC = {
             'non-trivial = tree of >= 3 leaves with >= 1 verification probe; distinct = distinct Gallina case terms',
     'trusted_base': [
         'SHA-256 over the protobuf encoding of the 4-field node message is the parameter H of the model. Theorems: for every H '
-        'with 32-byte digests, conclusions hold "or H has a collision" (C03_sound_partial, C03_sound_value_partial, C03_proof_binds), '
+        'with 32-byte digests, conclusions hold "or H has a collision" (C03_sound, C03_sound_value, C03_proof_binds), '
         'with corollaries for injective H; an injective 32-element H exists in the model (C03_ideal_hash, stdpp encode)',
         'correspondence: H is instantiated per case by a table of SHA-256 values computed by the harness with crypto/sha256 over '
         'its own protobuf encoder (not proof.go / types.go) for every node of the tree and every digest along each supplied path; '
@@ -48,17 +49,18 @@ SPEC = {
     'assumptions': [
         'crash-freedom is exercised, not proved: a Go panic is outside any model (every probe runs under recover(); a panic is a violation '
         'with the bytes as replay). C03_verify_total shows the model Verify is total and depends on the list only through the recomputed chain',
-        'soundness is guarded by no_confusable (no leaf has key and value both <= 32 bytes with one of them exactly 32 bytes, key non-empty '
-        'when it is the value): without it VerifyKVPairProof accepts forged pairs (C03_sound_refuted, C03_leaf_inner_confusion, '
-        'known finding C03-leaf-inner-confusion, reproduced on the Go code by the confuse stream)',
+        'soundness needs only that the committed tree is sized (inner heights >= 1, leaves height 0 - C01 invariant): the model is the verifier '
+        'as repaired by chain33 c3a108e (Proof.Verify rejects supplied nodes with Height < 1), which closed finding C03-leaf-inner-confusion '
+        '(LeafNode / InnerNode share one encoding); C03_honest_heights_ok shows honest proofs pass the added test, the confuse stream '
+        'replays the former forgeries against the Go code',
         'heights/sizes are int32 in Go and Z in the model; EnableMVCC / EnableMemTree and real pruning (PruneHeight > 0, see C05) are out of scope; '
         'Proof.Verify on a Proof struct containing a nil *InnerNode (not producible from bytes) is out of scope',
         'proof malleability is not part of the property: mutations the verifier cannot see (ignored RightHash next to a LeftHash, bytes in '
         'front of a 32-byte sibling digest, unknown protobuf fields) are accepted by model and implementation alike and satisfy the spec',
     ],
     'manifest': {
-        'level_text': 'full for completeness, key/value binding and root uniqueness; soundness partial (guard no_confusable, '
-                      'refuted without it - leaf/inner encoding confusion); crash-freedom of the Go decoder exercised, not proved',
+        'level_text': 'full for completeness, soundness (no guard on the state since the fix c3a108e of the leaf/inner encoding '
+                      'confusion), key/value binding and root uniqueness; crash-freedom of the Go decoder exercised, not proved',
         'level_note': 'parametric hash with collision-extraction conclusions; SHA-256 table computed independently by the harness; '
                       'protobuf decoding, LevelDB/memdb as oracles',
         'technique': 'Coq proof (structural induction on trees and proof paths, collision extraction) + in-kernel correspondence '
